@@ -5,6 +5,7 @@ import (
 	"fmt"
 	"math/rand/v2"
 	"net/netip"
+	"sort"
 	"strings"
 	"sync"
 	"time"
@@ -397,6 +398,144 @@ func multiRound(res *core.Result, pool *idPool, r *rand.Rand, t0 *vmesh.Topology
 	res.Case("multi-round/"+desc+"/"+strings.Join(history, ";"), true)
 }
 
+// forwardLoopChurn: a router's link set changes while one of its workers is in the middle of forwarding an
+// announcement (links come and go on other goroutines; here the change is made from inside a link's Send, i.e.
+// exactly between two iterations of the forwarding loop). Whatever happens to the link that changed, every peer
+// whose link was there before and after the handling of that frame - and that is not the origin, the peer the
+// frame came from, or named in its hop list - must get the forwarded announcement exactly once.
+func forwardLoopChurn(res *core.Result, pool *idPool, r *rand.Rand, leaves int, addLink bool) {
+	t := vmesh.Star(leaves + 1)
+	ids := pool.get(t.N + 1)
+	ms, err := vmesh.Build(r, t, ids[:t.N], vmesh.BuildOpts{Labels: vmesh.LabelMode(r.IntN(3))})
+	if err != nil {
+		res.Inconcl("mesh build: %v", err)
+		return
+	}
+	hub := 0
+	for i := 0; i < t.N; i++ {
+		if len(ms.Nodes[i].Links) > len(ms.Nodes[hub].Links) {
+			hub = i
+		}
+	}
+	if err := ms.Converge(r, false); err != nil {
+		res.Inconcl("converge: %v", err)
+		return
+	}
+	time.Sleep(2 * time.Millisecond)
+	desc := fmt.Sprintf("star with %d leaves, hub node %d, link %s during a forward", leaves, hub, map[bool]string{true: "added", false: "removed"}[addLink])
+	armed := true
+	change := ""
+	ms.OnLinkSend = func(l *vmesh.VLink, data []byte) {
+		if !armed || l.FromIdx() != hub {
+			return
+		}
+		info := decodeAnnouncement(data)
+		if info == nil || info.origin == ms.Nodes[hub].ID.IP {
+			return
+		}
+		armed = false
+		if addLink {
+			if _, err := ms.AddNode(ids[t.N], vmesh.NodeOpts{}); err == nil {
+				_ = ms.Connect(hub, len(ms.Nodes)-1, 30001, 30002)
+				change = fmt.Sprintf("node %d linked to the hub while the hub was sending to node %d", len(ms.Nodes)-1, l.ToIdx())
+			}
+			return
+		}
+		// remove the link to some other leaf (not the one being sent to, not the origin's)
+		var cands []int
+		for x := range ms.Nodes[hub].Links {
+			if x != l.ToIdx() && ms.Nodes[x].ID.IP != info.origin {
+				cands = append(cands, x)
+			}
+		}
+		if len(cands) == 0 {
+			return
+		}
+		sort.Ints(cands)
+		x := cands[r.IntN(len(cands))]
+		ms.Disconnect(hub, x)
+		change = fmt.Sprintf("link hub-%d went down while the hub was sending to node %d", x, l.ToIdx())
+	}
+	var sends []*vmesh.Packet
+	ms.OnSend = func(p *vmesh.Packet) {
+		if p.From == hub {
+			sends = append(sends, p)
+		}
+	}
+	if err := ms.AnnounceAll(); err != nil {
+		res.Inconcl("announce: %v", err)
+		return
+	}
+	linkSet := func() map[int]bool {
+		out := map[int]bool{}
+		for _, l := range ms.Nodes[hub].Inst.PeeringV.GetLinks() {
+			out[ms.IndexOf(l.Peer())] = true
+		}
+		return out
+	}
+	for steps := 0; ms.Pending() > 0 && steps < 100000; steps++ {
+		p := ms.Take(0)
+		if p.To != hub {
+			ms.Deliver(p)
+			continue
+		}
+		info := decodeAnnouncement(p.Data)
+		before := linkSet()
+		sends = sends[:0]
+		ms.Deliver(p)
+		if info == nil {
+			continue
+		}
+		after := linkSet()
+		key := vmesh.Key(p.Data)
+		got := map[int]int{}
+		total := 0
+		for _, sp := range sends {
+			if vmesh.Key(sp.Data) == key && decodeAnnouncement(sp.Data) != nil {
+				got[sp.To]++
+				total++
+			}
+		}
+		if total == 0 {
+			continue // not forwarded at all (not added): nothing to cover
+		}
+		named := map[int]bool{ms.IndexOf(info.origin): true, p.From: true}
+		for _, h := range info.hops {
+			named[ms.IndexOf(h)] = true
+		}
+		wit := map[string]any{"run": desc, "change": change, "case_id": "forward-loop-churn"}
+		for x := range before {
+			if !after[x] || named[x] {
+				continue
+			}
+			if got[x] == 0 {
+				res.Violate("announcement-forward-skipped-a-peer", fmt.Sprintf("%s: the hub forwarded the announcement of node %d to %d peer(s) but not to node %d, whose link was up before and after (%s)", desc, ms.IndexOf(info.origin), total, x, orNone(change)), wit)
+				return
+			}
+			if got[x] > 1 {
+				res.Violate("announcement-forwarded-twice-to-a-peer", fmt.Sprintf("%s: the hub sent the announcement of node %d %d times to node %d while handling it once (%s)", desc, ms.IndexOf(info.origin), got[x], x, orNone(change)), wit)
+				return
+			}
+		}
+		res.Count("forward_fanouts_checked", 1)
+	}
+	if len(ms.Panics) > 0 {
+		res.Violate("handler-panic", fmt.Sprintf("%s: %v", desc, ms.Panics[0]), nil)
+		return
+	}
+	if change != "" {
+		res.Count("forward_loops_with_link_change", 1)
+	}
+	res.Case("forward-loop-churn/"+desc, change != "")
+}
+
+func orNone(s string) string {
+	if s == "" {
+		return "no link changed during this handling"
+	}
+	return s
+}
+
 // dfs explores all delivery orders of a tiny mesh up to a schedule budget.
 func dfs(res *core.Result, pool *idPool, r *rand.Rand, rc runCfg, budget int) {
 	rc.order = "dfs"
@@ -565,6 +704,15 @@ func run(c *core.Ctx) {
 			multiRound(res, pool, r, mr[w], vmesh.LabelMode((w+i)%3), 5+i%2)
 		}
 	})
+	// link sets that change in the middle of a forwarding loop
+	parallel(4, func(w int) {
+		r := core.RNG(fmt.Sprintf("c09/fwdchurn/%d", w))
+		pool := &idPool{r: core.RNG(fmt.Sprintf("c09/fcids/%d", w))}
+		for i := 0; i < c.Q(6, 60); i++ {
+			forwardLoopChurn(res, pool, r, 3+(w+i)%5, i%2 == 1)
+		}
+	})
+	res.Require(res.Counter("forward_loops_with_link_change") >= 8 || res.ViolationCount() > 0, "too few forwarding loops with a link change in the middle")
 	// the largest announcements a frame can carry
 	parallel(4, func(w int) {
 		lo := 9700 + w*45
